@@ -44,7 +44,7 @@ def amo_positions(program):
             for b, br in enumerate(st["branches"]):
                 walk(br["body"], f"{pos}/b{b}")
         elif op == "map":
-            bodies = st.get("bodies") or [st["body"]] * len(st["items"])
+            bodies = st["bodies"] if "bodies" in st else [st["body"]] * len(st["items"])
             for b, body in enumerate(bodies):
                 walk(body, f"{pos}/b{b}")
 
@@ -296,7 +296,7 @@ class C06(Check):
             cl = classes if tier == "thorough" else rng.sample(classes, 2)
             for c in cl:
                 plans.append([{"kind": "apierr", "call": k, "err": c, "applied": rng.random() < 0.25}])
-        cap = 40 if tier == "quick" else 500
+        cap = 20 if tier == "quick" else 300
         if len(plans) > cap:
             rng.shuffle(plans)
             plans = plans[:cap]
@@ -599,5 +599,524 @@ class C14(Check):
         return ["ext:SUCCEEDED", "ext:FAILED", "ext:TIMED_OUT", "ext:CANCELLED", "ext:STOPPED", "completed-while-invocation-running"]
 
 
+
+class ComponentCheck(Check):
+    """Checks whose system under simulation is one SDK component (no Lambda driver)."""
+
+    gen = run = oracle_fn = reach_fn = None
+    quick_cases = 1500
+    thorough_cases = 40000
+    per_case = 6
+
+    def _one(self, cfg):
+        from dexsim import components
+        r = self.run(cfg)
+        vs = self.oracle_fn(cfg, r)
+        return r, vs
+
+    def component(self, seed_i, tier):
+        res = {"seed": seed_i, "evals": 0, "sigs": [], "fired": {}, "reach": {}, "violations": [], "steps": 0, "switches": 0,
+               "vtime": 0.0, "invocations": 0, "threads": 0, "line_events": 0, "sample": None, "outcomes": {}}
+        import hashlib, json
+        base = self.gen(seed_i)
+        for j in range(self.per_case):
+            cfg = dict(base)
+            cfg["sched"] = dict(base["sched"], seed=(base["sched"]["seed"] + 977 * j) & 0x3FFFFFFF)
+            r, vs = self._one(cfg)
+            s = r["sim"]
+            res["evals"] += 1
+            res["steps"] += s.steps
+            res["switches"] += s.switches
+            res["threads"] += len(s.threads)
+            res["line_events"] += s.line_events
+            res["vtime"] += s.clock.now - s.start_time
+            res["outcomes"][str(r["reason"])] = res["outcomes"].get(str(r["reason"]), 0) + 1
+            order = [(e["k"], e.get("t", e.get("p")), e.get("o")) for e in r["log"]]
+            sig = hashlib.blake2b(json.dumps([{k: v for k, v in cfg.items() if k != "sched"}, order]).encode(), digest_size=8).hexdigest()
+            nt = self.nontrivial_c(cfg, r)
+            res["sigs"].append((sig, nt))
+            for k, v in self.reach_c(cfg, r).items():
+                res["reach"][k] = res["reach"].get(k, 0) + v
+            if res["sample"] is None or (nt and not res["sample"].get("nontrivial")):
+                res["sample"] = {"nontrivial": nt, "config": {k: v for k, v in cfg.items()}, "outcome": r["reason"],
+                                 "events": [f"{e['s']}:{e['k']}:{e.get('t', e.get('p', ''))}" for e in r["log"][:40]]}
+            for v in vs:
+                c2 = dict(cfg)
+                c2["choices"] = {str(k): val for k, val in s.recorded.items()}
+                res["violations"].append({"v": v, "cfg": c2})
+        return res
+
+    def component_replay(self, cfg):
+        r, vs = self._one(cfg)
+        return vs
+
+    def component_minimise(self, cfg, want, budget):
+        import json
+        best = json.loads(json.dumps(cfg))
+        tries = 0
+
+        def ok(c):
+            nonlocal tries
+            if tries >= budget:
+                return False
+            tries += 1
+            try:
+                return any(v["prop"] == want["prop"] and v["cls"] == want["cls"] for v in self.component_replay(c))
+            except Exception:  # noqa: BLE001
+                return False
+
+        c = dict(best, choices={})
+        if ok(c):
+            best = c
+        key = "threads" if "threads" in best else "producers"
+        changed = True
+        while changed:
+            changed = False
+            for i in range(len(best[key])):
+                if len(best[key]) <= 1:
+                    break
+                if best.get("raising") and best["raising"][0] == i:
+                    continue
+                c = json.loads(json.dumps(best))
+                del c[key][i]
+                if c.get("raising") and c["raising"][0] > i:
+                    c["raising"][0] -= 1
+                c["choices"] = {}
+                if ok(c):
+                    best = c
+                    changed = True
+                    break
+            if changed:
+                continue
+            for i in range(len(best[key])):
+                for j in range(len(best[key][i]) - 1, -1, -1):
+                    if len(best[key][i]) <= 1:
+                        break
+                    if best.get("raising") and best["raising"][0] == i and best["raising"][1] >= j:
+                        continue
+                    c = json.loads(json.dumps(best))
+                    del c[key][i][j]
+                    c["choices"] = {}
+                    if ok(c):
+                        best = c
+                        changed = True
+                        break
+                if changed:
+                    break
+        if best["sched"].get("policy") != "default" and not best.get("choices"):
+            c = dict(best, sched=dict(best["sched"], policy="default", lines=False))
+            if ok(c):
+                best = c
+        return best, tries
+
+
+class C19(ComponentCheck):
+    rule = ("component simulation of the real OrderedLock / OrderedCounter: k in 2..6 simulated threads with scripted "
+            "acquire/critical-section/release (or increment) sequences, one critical section optionally raising, line-level "
+            "pre-emption always on; case = (script, schedule); non-trivial iff >=2 threads were inside acquire simultaneously")
+    assumptions = ["scheduling granularity is one source line of threading.py (sys.settrace) plus every Lock/Event operation",
+                   "FIFO is checked in its externally observable form: a thread parked inside acquire before another thread invoked "
+                   "acquire must enter first", "trusted base: simulated Lock/Event primitives, CPython"]
+
+    def __init__(self, pid):
+        super().__init__(pid)
+        from dexsim import components
+        self.gen, self.run, self.oracle_fn = components.gen_c19, components.run_c19, components.oracle_c19
+
+    def nontrivial_c(self, cfg, r):
+        return any(e["k"] in ("acq-call", "inc-call") and e["parked"] for e in r["log"])
+
+    def reach_c(self, cfg, r):
+        out = {}
+        if any(e["k"] in ("acq-call", "inc-call") and e["parked"] for e in r["log"]):
+            out["waiter-parked-while-another-arrives"] = 1
+        if any(e["k"] in ("acq-call", "inc-call") and len(e["parked"]) >= 2 for e in r["log"]):
+            out["two-or-more-waiters-parked"] = 1
+        if any(e["k"] == "boom" for e in r["log"]):
+            out["holder-raised"] = 1
+            b = next(e for e in r["log"] if e["k"] == "boom")
+            if sum(1 for e in r["log"] if e["k"] == "lock-err") >= 2:
+                out["break-with-2+-waiters-or-later-acquirers"] = 1
+            if any(e["k"] == "acq-call" and e["s"] > b["s"] for e in r["log"]):
+                out["acquire-after-break"] = 1
+        if r["sim"].line_events:
+            out["line-preemption-on"] = 1
+        return out
+
+    def required_reach(self, tier):
+        return ["waiter-parked-while-another-arrives", "two-or-more-waiters-parked", "holder-raised", "acquire-after-break"]
+
+
+class C05(ComponentCheck):
+    rule = ("component simulation of the real ExecutionState checkpoint pipeline: real consumer thread, k in 1..6 producer threads "
+            "issuing scripted create_checkpoint calls (sync/async, sizes 0..2x the byte limit, empty checkpoints), protocol-level "
+            "fake service with latency, randomised CheckpointBatcherConfig; non-trivial iff >=2 API calls or a batch of >=2 updates")
+    assumptions = ["hand-over order is checked in its externally observable form: per producer call order, and across producers "
+                   "when call A returned before call B was invoked", "the fake service accepts every batch (failure handling is C06)",
+                   "trusted base: simulated primitives, CPython"]
+    per_case = 5
+
+    def __init__(self, pid):
+        super().__init__(pid)
+        from dexsim import components
+        self.gen, self.run, self.oracle_fn = components.gen_c05, components.run_c05, components.oracle_c05
+
+    def nontrivial_c(self, cfg, r):
+        from dexsim import components
+        x = components.reach_c05(cfg, r)
+        return bool(x.get("api-calls>=2") or x.get("batch-of-2+"))
+
+    def reach_c(self, cfg, r):
+        from dexsim import components
+        return components.reach_c05(cfg, r)
+
+    def required_reach(self, tier):
+        return ["api-calls>=2", "batch-of-2+", "count-limit-hit", "oversize-update-generated", "empty-checkpoint-call"]
+
+
+
+def _c09_branch(rng, kind):
+    if kind == "ok":
+        if rng.random() < 0.5:
+            return {"body": [{"op": "step", "fn": {"attempts": [{"do": "ret", "v": gen.gen_value(rng, 1, True)}]}}]}
+        return {"body": [{"op": "step", "fn": {"attempts": [{"do": "ret", "v": ["int", 1], "block": rng.choice([0, 0.05, 0.5, 2.0])}]}}],
+                "ret": gen.gen_value(rng, 0, True)}
+    if kind == "fail":
+        cls = rng.choice(gen.USER_ERRS)
+        if rng.random() < 0.5:
+            return {"body": [{"op": "raise", "cls": cls, "msg": rng.choice(["bad item", "boom", ""])}]}
+        return {"body": [{"op": "step", "fn": {"attempts": [{"do": "raise", "cls": cls, "msg": "step failed", "block": rng.choice([0, 0.05, 0.5])}]},
+                          "retry": {"kind": "preset", "name": "none"}}]}
+    if kind == "wait":
+        return {"body": [{"op": "wait", "s": rng.choice([1, 2, 5, 60])}, {"op": "step"}]}
+    if kind == "callback":
+        return {"body": [{"op": "callback", "between": []}]}
+    if kind == "retry":
+        return {"body": [{"op": "step", "fn": {"attempts": [{"do": "raise", "cls": "ValueError", "msg": "transient"}, {"do": "ret", "v": ["str", "late"]}]},
+                          "retry": {"kind": "script", "decisions": [{"retry": rng.choice([1, 2, 5])}, {"no": 1}]}}]}
+    if kind == "block":
+        return {"body": [{"op": "step", "fn": {"attempts": [{"do": "ret", "v": ["str", "slow"], "block": 30.0}]}}]}
+    raise AssertionError(kind)
+
+
+class C09(Check):
+    rule = ("one map/parallel call with 0..6 items, every CompletionConfig combination, max_concurrency in {None,1,2,n}, per-branch "
+            "scripts (succeed, fail, park on wait/callback/retry, block 30 virtual s) followed by a wait and a step so that the call is "
+            "replayed; non-trivial iff >=2 branch bodies overlapped or the call returned with a branch still running/parked")
+    quick_cases = 500
+
+    def make_cfg(self, seed_i, prof):
+        rng = random.Random(H(seed_i, "prog"))
+        n = rng.choice([0, 1, 2, 2, 3, 3, 4, 5, 6])
+        kinds = {"ok": 6, "fail": 4, "wait": 1.5, "callback": 1, "retry": 1, "block": 1.5}
+        if rng.random() < 0.4:
+            kinds = {"ok": 5, "fail": 5, "block": 2}
+        branches = [_c09_branch(rng, gen.pick(rng, kinds)) for _ in range(n)]
+        cfgc = None
+        if rng.random() < 0.85:
+            cfgc = {}
+            if rng.random() < 0.5:
+                cfgc["min"] = rng.randrange(1, max(2, n + 1))
+            if rng.random() < 0.45:
+                cfgc["tol"] = rng.choice([0, 1, 2, max(0, n - 1)])
+            if rng.random() < 0.25:
+                cfgc["pct"] = rng.choice([0, 34, 50, 100])
+            if rng.random() < 0.45:
+                cfgc["conc"] = rng.choice([1, 2, max(1, n)])
+            if rng.random() < 0.2:
+                cfgc["summary"] = True
+        if rng.random() < 0.6:
+            st = {"op": "parallel", "branches": branches}
+        else:
+            st = {"op": "map", "items": [["int", i] for i in range(n)], "bodies": [b["body"] for b in branches],
+                  "rets": [b.get("ret") for b in branches]}
+        if cfgc is not None:
+            st["cfg"] = cfgc
+        body = [{"op": "try", "stmt": st, "catch": ["CallableRuntimeError"] + gen.USER_ERRS, "handler": []}]
+        if rng.random() < 0.8:
+            body.append({"op": "wait", "s": rng.choice([1, 3])})
+        body.append({"op": "step"})
+        if rng.random() < 0.3:
+            body.insert(0, {"op": "step"})
+        program = {"body": body}
+        ext = {}
+        gen.assign_externals(body, "r", ext)
+        for pos_ in _positions_of(program, "callback"):
+            ext[pos_] = {"outcome": rng.choice(["succeed", "succeed", "fail"]), "delay": rng.choice([0.05, 0.5, 3, 40]),
+                         "payload": "cb", "message": "cb failed", "etype": "ExtErr"}
+        sched = gen.gen_sched(random.Random(H(seed_i, "sched")), prof)
+        knobs = gen.gen_knobs(random.Random(H(seed_i, "knobs")), prof)
+        knobs["latency"] = rng.choice([[0.001, 0.002], [0.001, 0.05], [0.01, 0.3]])
+        cfg = {"program": program, "externals": ext, "seed": seed_i % (1 << 31), "sched": sched, "faults": [], "max_inv": 40}
+        cfg.update(knobs)
+        cfg.pop("skew", None)
+        return cfg
+
+    def fault_plans(self, rng, st, prof, tier, cfg, w):
+        n = 3 if tier == "quick" else 6
+        prof = dict(prof, fault_kinds=["crash-api", "crash-fn", "spurious"])
+        return [p for p in (gen_fault_plan(rng, st, prof) for _ in range(n)) if p]
+
+    def oracle(self, ix, cfg, golden):
+        vs = oracles.check_c09(ix, cfg)
+        for v in oracles.check_c02(ix):
+            st = oracles.statements(cfg["program"]).get(v.get("pos"))
+            if st and st["op"] in ("parallel", "map"):
+                v = dict(v)
+                v["prop"] = "C09"
+                v["cls"] = "replayed-" + v["cls"]
+                vs.append(v)
+        return vs
+
+    def nontrivial(self, w, ix, cfg):
+        act = 0
+        for e in sorted(ix.kinds["body-enter"] + ix.kinds["body-exit"], key=lambda e: e["s"]):
+            if e.get("bkind") != "branch":
+                continue
+            act += 1 if e["k"] == "body-enter" else -1
+            if act >= 2:
+                return True
+        return False
+
+    def reach(self, w, ix, cfg):
+        r = {}
+        for pos, ds in ix.deliveries.items():
+            for d in ds:
+                if d["op"] in ("parallel", "map") and d["how"] == "ret" and d["v"][0] == "batch":
+                    r["reason:" + d["v"][1]] = 1
+                    if any(it[1] == "STARTED" for it in d["v"][2]):
+                        r["returned-with-STARTED-items"] = 1
+                    if not d["v"][2]:
+                        r["zero-items-returned"] = 1
+        st = [s for s in oracles.statements(cfg["program"]).values() if s["op"] in ("parallel", "map")]
+        if st and (len(st[0].get("branches", st[0].get("items", []))) == 0):
+            r["zero-items-generated"] = 1
+        if st and (st[0].get("cfg") or {}).get("conc") == 1:
+            r["max-concurrency-1"] = 1
+        return r
+
+    def required_reach(self, tier):
+        return ["reason:ALL_COMPLETED", "reason:MIN_SUCCESSFUL_REACHED", "reason:FAILURE_TOLERANCE_EXCEEDED",
+                "returned-with-STARTED-items", "zero-items-generated", "max-concurrency-1"]
+
+
+def _positions_of(program, op):
+    return [p for p, st in oracles.statements(program).items() if st["op"] == op]
+
+
+class C16(Check):
+    rule = ("child/map/parallel results straddling the checkpoint limit (limit-50 .. 2x limit), with and without summary generator, "
+            "failed branches present, followed by a wait so that the context is replayed; handler results and error messages "
+            "straddling the response limit; limits scaled down (stated knob) in 4 of 5 runs, real constants in the rest; "
+            "non-trivial iff >=1 payload exceeded a limit")
+    quick_cases = 300
+
+    def make_cfg(self, seed_i, prof):
+        rng = random.Random(H(seed_i, "prog"))
+        real = rng.random() < 0.2
+        ck = 256 * 1024 if real else rng.choice([600, 2000, 5000])
+        rl = (6 * 1024 * 1024 - 50) if real else rng.choice([3000, 9000, 30000])
+
+        def big(limit):
+            return ["big", max(1, rng.choice([limit - 60, limit - 3, limit - 1, limit, limit + 1, limit + 40, 2 * limit]))]
+
+        body = []
+        kind = rng.choice(["child", "parallel", "map", "nested", "handler", "error", "handler"])
+        if kind == "child":
+            body.append({"op": "child", "body": [{"op": "step"}, {"op": "step", "fn": {"attempts": [{"do": "ret", "v": ["int", 3]}], "log": False}}],
+                         "ret": big(ck)})
+        elif kind in ("parallel", "map"):
+            n = rng.randrange(1, 5)
+            per = max(1, ck // n)
+            brs = []
+            for b in range(n):
+                if rng.random() < 0.2:
+                    brs.append({"body": [{"op": "raise", "cls": "ValueError", "msg": "bad"}]})
+                else:
+                    brs.append({"body": [{"op": "step"}], "ret": ["big", max(1, per + rng.choice([-80, -10, 0, 10, 200]))]})
+            c = {"tol": n}
+            if rng.random() < 0.5:
+                c["summary"] = True
+            if kind == "parallel":
+                body.append({"op": "parallel", "branches": brs, "cfg": c if rng.random() < 0.8 else None})
+                if body[-1]["cfg"] is None:
+                    del body[-1]["cfg"]
+            else:
+                body.append({"op": "map", "items": [["int", i] for i in range(n)], "bodies": [b["body"] for b in brs],
+                             "rets": [b.get("ret") for b in brs], "cfg": c})
+        elif kind == "nested":
+            inner = {"op": "child", "body": [{"op": "step"}], "ret": big(ck)}
+            body.append({"op": "child", "body": [inner, {"op": "step"}], "ret": big(ck)})
+        if kind != "error":
+            body.append({"op": "wait", "s": 2})
+            body.append({"op": "step"})
+        program = {"body": [({"op": "try", "stmt": st, "catch": ["CallableRuntimeError"], "handler": []} if st["op"] in ("parallel", "map", "child") and rng.random() < 0.3 else st)
+                            for st in body]}
+        if kind == "handler":
+            program["ret"] = big(rl)
+        elif kind == "error":
+            program["body"] = [{"op": "step"}, {"op": "raise", "cls": rng.choice(["ValueError", "UserErrA"]), "size": big(rl)[1]}]
+        elif rng.random() < 0.3:
+            program["ret"] = big(rl)
+        ext = {}
+        sched = gen.gen_sched(random.Random(H(seed_i, "sched")), prof)
+        knobs = gen.gen_knobs(random.Random(H(seed_i, "knobs")), prof)
+        if "batch" in knobs:
+            knobs["batch"]["bytes"] = max(knobs["batch"]["bytes"], 750 * 1024)
+        cfg = {"program": program, "externals": ext, "seed": seed_i % (1 << 31), "sched": sched, "faults": [], "max_inv": 30,
+               "limits": {"ckpt": ck, "resp": rl}}
+        cfg.update(knobs)
+        return cfg
+
+    def oracle(self, ix, cfg, golden):
+        return oracles.check_c16(ix, cfg)
+
+    def nontrivial(self, w, ix, cfg):
+        lim = cfg["limits"]
+        return any(e.get("replay_children") for e in ix.kinds["applied"]) or any(
+            h["size"] and h["size"] > lim["resp"] for h in ix.kinds["handler-exit"]) or any(e["type"] == "EXECUTION" for e in ix.kinds["applied"])
+
+    def reach(self, w, ix, cfg):
+        r = {}
+        for e in ix.kinds["applied"]:
+            if e.get("replay_children"):
+                r["summary-" + ("with-payload" if e["size"] else "empty")] = 1
+                r["replay-children:" + str(e["sub"])] = 1
+            if e["type"] == "EXECUTION":
+                r["execution-record:" + e["action"]] = 1
+        if any(e.get("rc") and e.get("status") == "SUCCEEDED" for e in ix.kinds["body-enter"]):
+            r["replay-children-traversal"] = 1
+        if cfg["limits"]["ckpt"] == 256 * 1024:
+            r["real-limits"] = 1
+        return r
+
+    def required_reach(self, tier):
+        return ["summary-with-payload", "summary-empty", "replay-children-traversal", "execution-record:SUCCEED",
+                "execution-record:FAIL", "real-limits"]
+
+
+class C17(Check):
+    rule = ("sequential programs (child contexts, callbacks, wait_for_callback; map/parallel only as units) with log statements "
+            "between operations and inside step functions, capturing logger installed with set_logger; histories produced by real "
+            "suspensions and crashes, first-page sizes from 1; non-trivial iff a resumed invocation had >=1 expected-silent and "
+            ">=1 expected-emitted log call")
+    base_profile = {"weights": {"log": 7, "step": 6, "wait": 3, "child": 3, "callback": 1, "wfc": 1, "parallel": 1, "map": 0,
+                                "invoke": 1, "wfcond": 1}, "fnlog_p": 0.5, "fail_p": 0.2, "max_ops": 12,
+                    "fault_kinds": ["crash-api", "crash-fn", "spurious"]}
+    quick_cases = 400
+
+    def tune(self, cfg, prof, rng):
+        if rng.random() < 0.5:
+            cfg["first_page"] = rng.choice([1, 1, 2, 3])
+            cfg["state_page"] = rng.choice([1, 2, 1000])
+
+    def oracle(self, ix, cfg, golden):
+        return oracles.check_c17(ix, cfg)
+
+    def nontrivial(self, w, ix, cfg):
+        logs_by_inv = {}
+        for n, e in enumerate(ix.trace):
+            if e["k"] == "log-call" and e["i"] > 1 and not oracles._under_branch(e["pos"]):
+                nxt = next((x for x in ix.trace[n + 1:n + 400] if x["t"] == e["t"] and x["i"] == e["i"]), {})
+                logs_by_inv.setdefault(e["i"], set()).add(nxt.get("k") == "log")
+        return any(len(v) == 2 for v in logs_by_inv.values())
+
+    def reach(self, w, ix, cfg):
+        r = {}
+        for i in w.invocations[1:]:
+            for oid, st in i["hist"].items():
+                if st in TERMINAL and oid in ix.info:
+                    sub = ix.info[oid]["sub"]
+                    r["history-with-completed:" + str(sub)] = 1
+        if any(b.get("first_page") == 1 and b.get("n_hist", 0) > 1 for b in ix.kinds["inv-begin"]):
+            r["first-page-of-size-1"] = 1
+        return r
+
+    def required_reach(self, tier):
+        return ["history-with-completed:Step", "history-with-completed:RunInChildContext", "history-with-completed:Wait",
+                "first-page-of-size-1"]
+
+
+class C18(Check):
+    rule = ("handlers that return JSON-serialisable and non-serialisable values of any size, raise ordinary exceptions and SDK "
+            "ExecutionError/InvocationError/ValidationError subclasses from top level, child contexts and branches; malformed "
+            "events; every API-error class at every call position; non-trivial iff the execution was anything but a fault-free "
+            "SUCCEEDED")
+    quick_cases = 400
+    RAISE = ["ValueError", "KeyError", "UserErrA", "ExecutionError", "InvocationError", "ValidationError", "SerDesError",
+             "CallableRuntimeError", "CallbackError", "StepInterruptedError", "NonDeterministicExecutionError", "InvalidStateError",
+             "ZeroDivisionError", "TypeError"]
+    base_profile = {"max_ops": 7, "top_hi": 4, "amo_p": 0.2}
+
+    def make_cfg(self, seed_i, prof):
+        cfg = Check.make_cfg(self, seed_i, prof)
+        rng = random.Random(H(seed_i, "c18"))
+        body = cfg["program"]["body"]
+        r = rng.random()
+        rs = {"op": "raise", "cls": rng.choice(self.RAISE), "msg": "user raise"}
+        if r < 0.3:
+            body.append(rs)
+        elif r < 0.45:
+            body.append({"op": "child", "body": [{"op": "step"}, rs]})
+        elif r < 0.6:
+            body.append({"op": "parallel", "branches": [{"body": [{"op": "step"}]}, {"body": [rs]}],
+                         "cfg": rng.choice([None, {"tol": 0}, {"tol": 2}])})
+            if body[-1]["cfg"] is None:
+                del body[-1]["cfg"]
+        elif r < 0.7:
+            body.append({"op": "step", "fn": {"attempts": [{"do": "raise", "cls": rng.choice(self.RAISE), "msg": "in step"}]},
+                         "retry": {"kind": "preset", "name": "none"}})
+        elif r < 0.85:
+            cfg["program"]["ret"] = rng.choice([["set"], ["obj"], ["bytes", "00ff"], ["dec", "1.5"], ["big", 5000], ["none"],
+                                                ["dict", {"a": ["tuple", [["int", 1]]]}], ["float", 1e300], ["dt", "2024-01-02T03:04:05+00:00"]])
+        if rng.random() < 0.15:
+            cfg["bad_event"] = rng.choice([{}, {"DurableExecutionArn": "a"}, {"CheckpointToken": "t"}, [],
+                                           {"DurableExecutionArn": "a", "CheckpointToken": "t", "InitialExecutionState": {"Operations": [{"Id": "x"}]}},
+                                           {"DurableExecutionArn": "a", "CheckpointToken": "t", "InitialExecutionState": "zzz"}, None, "str"])
+            cfg["max_inv"] = 3
+            cfg["stop_on_raise"] = True
+        if rng.random() < 0.5:
+            cfg["limits"] = {"resp": rng.choice([200, 2000]), "ckpt": 256 * 1024}
+        return cfg
+
+    def fault_plans(self, rng, st, prof, tier, cfg, w):
+        classes = ["500", "503", "429", "400", "400tok", "403", "404", "conn"]
+        plans = []
+        for k in range(1, w.api_calls + 1):
+            plans.append([{"kind": "apierr", "call": k, "err": rng.choice(classes), "applied": rng.random() < 0.25}])
+        rng.shuffle(plans)
+        n = 5 if tier == "quick" else 12
+        plans = plans[:n]
+        prof2 = dict(prof, fault_kinds=["crash-api", "crash-fn"])
+        plans.append(gen_fault_plan(rng, st, prof2))
+        return [p for p in plans if p]
+
+    def oracle(self, ix, cfg, golden):
+        return oracles.check_c18(ix, cfg)
+
+    def nontrivial(self, w, ix, cfg):
+        return not (len(w.invocations) == 1 and w.invocations[0]["outcome"] == "SUCCEEDED")
+
+    def reach(self, w, ix, cfg):
+        r = {}
+        for i in w.invocations:
+            r["outcome:" + i["outcome"]] = 1
+            if i["outcome"] == "raise":
+                r["raised:" + str(i.get("exc_cls"))] = 1
+        for e in ix.kinds["user-raise"]:
+            if oracles.ctx_pos(e["pos"])[0] == "branch":
+                r["raise-in-branch"] = 1
+        for h in ix.kinds["handler-exit"]:
+            if not h["serialisable"]:
+                r["non-serialisable-return"] = 1
+        if any(e["type"] == "EXECUTION" for e in ix.kinds["applied"]):
+            r["large-result-checkpoint"] = 1
+        return r
+
+    def required_reach(self, tier):
+        return ["outcome:SUCCEEDED", "outcome:FAILED", "outcome:PENDING", "outcome:raise", "raise-in-branch", "non-serialisable-return",
+                "large-result-checkpoint", "raised:ExecutionError", "raised:CheckpointError"]
+
+
 CHECKS = {c.id: c for c in [C01("C01"), C02("C02"), C03("C03"), C04("C04"), C06("C06"), C07("C07"), C08("C08"),
-                            C10("C10"), C11("C11"), C12("C12"), C13("C13"), C14("C14")]}
+                            C10("C10"), C11("C11"), C12("C12"), C13("C13"), C14("C14"), C05("C05"), C19("C19"), C09("C09"), C16("C16"), C17("C17"), C18("C18")]}
